@@ -274,6 +274,10 @@ pub(crate) struct AnyReader {
     /// 2: delivers fragments until `fail_at` bytes have been delivered, then fails (no interruptions)
     pub mode: u8,
     pub fail_at: usize,
+    /// while `simple_lo <= pos < simple_hi` a call either delivers everything asked for or fails (no
+    /// fragmentation, no interruption): keeps two consecutive read_exact loops from multiplying
+    pub simple_lo: usize,
+    pub simple_hi: usize,
     pub max_calls: u8,
     pub calls: u8,
     pub failed: bool,
@@ -283,7 +287,7 @@ pub(crate) struct AnyReader {
 
 impl AnyReader {
     pub(crate) fn new() -> Self {
-        AnyReader { stream: kani::any(), pos: 0, mode: 0, fail_at: 0, max_calls: MAX_IO_CALLS, calls: 0, failed: false, interrupted: 0, fragments: 0 }
+        AnyReader { stream: kani::any(), pos: 0, mode: 0, fail_at: 0, simple_lo: 0, simple_hi: 0, max_calls: MAX_IO_CALLS, calls: 0, failed: false, interrupted: 0, fragments: 0 }
     }
 }
 
@@ -292,6 +296,25 @@ impl Read for AnyReader {
         self.calls += 1;
         kani::assume(self.calls <= self.max_calls);
         let choice: u8 = kani::any();
+        if self.pos >= self.simple_lo && self.pos < self.simple_hi {
+            if choice == 1 {
+                self.failed = true;
+                return Err(any_error_kind().into());
+            }
+            if choice == 2 {
+                self.failed = true;
+                return Ok(0);
+            }
+            let k = if buf.len() < 8 - self.pos { buf.len() } else { 8 - self.pos };
+            let mut i = 0;
+            while i < k {
+                buf[i] = self.stream[self.pos + i];
+                i += 1;
+            }
+            self.pos += k;
+            self.fragments += 1;
+            return Ok(k);
+        }
         if self.mode == 2 {
             if self.pos == self.fail_at {
                 self.failed = true;
